@@ -195,6 +195,43 @@ def explore(chk, rnd, tier):
             if g.get("r") == "ok" and depth(d) >= 2 and sum(s.count(c) for c in ".[{:") >= 1:
                 nt.add(s + canon(d))
         done += m
+    # `fn=>path` applies the top-level function registered under `fn` NOW: registering the name again (after the selector text has
+    # been evaluated, and cached, with the earlier function) changes what the same text returns. Expected = the function applied,
+    # here, to what the plain path returns.
+    apply = {"count": lambda v: float(len(v)) if isinstance(v, list) else 1.0, "wrap": lambda v: [v], "id": lambda v: v,
+             "first": lambda v: (v[0] if isinstance(v, list) and v else None)}
+    seqs = []
+    while len(seqs) < (60 if tier == "quick" else 800) and not chk.violations:
+        doc = gen_doc(rnd)
+        sel = gen_selector(rnd, doc)
+        if "::" in sel or "=>" in sel.split("[")[0] or "=>" in sel.replace("keep=>", ""):
+            continue
+        name = rnd.choice(["vf_top", "vf_top2", "vf_top3"])
+        impls = [rnd.choice(list(apply)) for _ in range(rnd.randint(2, 4))]
+        seqs.append((doc, sel, name, impls))
+    rreqs, rmeta = [], []
+    for doc, sel, name, impls in seqs:
+        rreqs.append({"op": "reader", "doc": enc_val(doc), "selector": sel})
+        rmeta.append(None)
+        for im in impls:
+            rreqs.append({"op": "reader", "doc": enc_val(doc), "selector": name + "=>" + sel, "topName": name, "topImpl": im})
+            rmeta.append(im)
+    routs = run_go([dict(r) for r in rreqs]) if rreqs else []
+    plain = None
+    for r, im, o in zip(rreqs, rmeta, routs):
+        if im is None:
+            plain = o
+            continue
+        chk.count("registered-again:" + str(o.get("r")))
+        if plain.get("r") != "ok":
+            ok = o.get("r") == plain.get("r")
+        else:
+            ok = o.get("r") == "ok" and canon(dec_val(o["v"])) == canon(apply[im](dec_val(plain["v"])))
+        if not ok:
+            chk.add_violation("top-level-function-registered-again", {"request": r, "impl": o, "plain_path_result": plain,
+                                                                      "expected": "the function registered last (" + im + ") applied to the plain result"})
+            break
+    chk.cov["registration_sequences"] = len(seqs)
     chk.cov["evaluations"] = done
     chk.cov["distinct_nontrivial"] = len(nt)
     chk.samples.extend([{"selector": s, "doc": d} for d, s, _ in cases[:4]])
